@@ -326,6 +326,30 @@ def rules(rep, m):
         r6.ok()
 
 
+    # R-C04-7 ------------------------------------------------------------
+    r7 = rep.rule("R-C04-7", "the event queue delivers its wake-ups (to processes waiting for an event that is executed or "
+                  "cancelled) from storage that outlives the removal: in src/cmb_event.c no pointer into the queue's slots is "
+                  "used or handed on after a call that can reshuffle or grow the queue (restriction of R-C10-1 to the event "
+                  "queue; a dangling slot pointer makes a waiter return for another event's cause)", floor=3)
+    from . import c10
+    out, roots, _, _ = c10.pointer_lifetime(m)
+    ev_roots = {f.name for f in roots if (m.rel(f.file) or "") == "src/cmb_event.c"}
+    for o in sorted(out["origins"]):
+        if o[0] in ev_roots:
+            r7.instance("%s: %s(%s) at %s" % o)
+    seen = set()
+    nf = 0
+    for rid, root, cons, msg, where in out["findings"]:
+        if rid != "R-C10-1" or root not in ev_roots or (root, cons) in seen:
+            continue
+        seen.add((root, cons))
+        rep.finding(r7, root, cons, msg, where=where)
+        nf += 1
+    no = len([o for o in out["origins"] if o[0] in ev_roots])
+    r7.obligations += no
+    r7.discharged += max(0, no - nf)
+
+
 def run(tier="quick"):
     models = common.load_models(tier)
     rep = Report(PID, tier, models[0])
